@@ -50,6 +50,9 @@ def run(ctx):
                 "a range covering it was present during the whole call" if not e["res"] else "no range covering it was present at any time during the call",
                 k, sum(1 for x in c["evs"][:k] if x["k"] == "wb")))
             sig = kind + (" after updates stopped" if e["p"] == 50 else " during churn")
+        elif e["k"] == "stuck":
+            what = "Add / Remove / Contains stopped returning: %s; %d goroutine stacks inside the filter (event %d)" % (e.get("op"), e.get("p", 0), k)
+            sig = "deadlock"
         elif e["k"] == "crash":
             what = "a writer goroutine crashed inside the filter: %s (event %d)" % (e.get("op"), k)
             sig = "crash"
